@@ -20,6 +20,16 @@ type requestStream struct {
 	reader          *bufio.Reader
 	totalBytesRead  int
 	chunkLeft       int
+	chunkedEOF      bool
+}
+
+// drained reports whether the whole framed body has been taken off the connection.
+func (rs *requestStream) drained() bool {
+	contentLength := rs.header.ContentLength()
+	if contentLength == -1 {
+		return rs.chunkedEOF
+	}
+	return rs.totalBytesRead >= contentLength || int(rs.prefetchedBytes.Size()) >= contentLength
 }
 
 func (rs *requestStream) Read(p []byte) (int, error) {
@@ -28,6 +38,9 @@ func (rs *requestStream) Read(p []byte) (int, error) {
 		err error
 	)
 	if rs.header.ContentLength() == -1 {
+		if rs.chunkedEOF {
+			return 0, io.EOF
+		}
 		if rs.chunkLeft == 0 {
 			chunkSize, err := parseChunkSize(rs.reader)
 			if err != nil {
@@ -38,6 +51,7 @@ func (rs *requestStream) Read(p []byte) (int, error) {
 				if err != nil && err != io.EOF {
 					return 0, err
 				}
+				rs.chunkedEOF = true
 				return 0, io.EOF
 			}
 			rs.chunkLeft = chunkSize
@@ -98,6 +112,7 @@ func releaseRequestStream(rs *requestStream) {
 	rs.prefetchedBytes = nil
 	rs.totalBytesRead = 0
 	rs.chunkLeft = 0
+	rs.chunkedEOF = false
 	rs.reader = nil
 	rs.header = nil
 	requestStreamPool.Put(rs)
